@@ -131,6 +131,11 @@ class Executor:
         self.ghost_hooks = spec.get('ghost', [])
         self.feas_calls = 0
         self.specmode_lemma_only = False
+        self.assigned_locals = set()
+        for _n in fsrc.body:
+            for _sub in ast.walk(_n):
+                if isinstance(_sub, ast.Name) and isinstance(_sub.ctx, ast.Store):
+                    self.assigned_locals.add(_sub.id)
         self.defined = dict()       # fresh constant -> constants it is defined from
         from .loops import number_loops
         self.loop_ord = number_loops(fsrc.body)
@@ -1283,7 +1288,19 @@ class Executor:
             raise OutsideSubset('statement %s (line %s)'
                                 % (type(node).__name__, self.cur_line))
         mark = len(self.exits)
-        outs = m(node, st)
+        outs = None
+        for prefix, handler in self.spec.get('stmt_effects', {}).items():
+            seg = ast.get_source_segment(self.fsrc.src, node) or ''
+            if seg.startswith(prefix):
+                # a statement that cannot be modelled (process spawning, file
+                # access) is replaced by the effect declared in the spec; it is
+                # listed under dropped statements (an assumption, not proof)
+                self.fsrc.dropped.append('L%d: %s ... <replaced by effect %s>'
+                        % (node.lineno, prefix[:60], getattr(handler, '__name__', 'handler')))
+                outs = handler(self, node, st) or [('next', st, None)]
+                break
+        if outs is None:
+            outs = m(node, st)
         # exceptional exits raised while evaluating expressions of this stmt
         new = self.exits[mark:]
         del self.exits[mark:]
@@ -1318,6 +1335,19 @@ class Executor:
             n = ty.len(log.term)
             st.env['yielded'] = Val(ty, ty.mk(z3.Store(ty.arr(log.term), n,
                                     coerce(v, ty.elem).term), n + 1))
+            return [('next', st, None)]
+        if getattr(node, '_dropped_call_args', False):
+            # arguments of a dropped logging / profiling call: only their
+            # failure conditions matter (reading an unbound local, a missing
+            # key); what cannot be modelled (formatting helpers) is skipped
+            for elt in node.value.elts:
+                for sub in ast.walk(elt):
+                    if isinstance(sub, ast.Name) and isinstance(sub.ctx, ast.Load) \
+                       and sub.id in st.bound:
+                        self.get_var(st, sub.id)
+                    elif isinstance(sub, ast.Name) and isinstance(sub.ctx, ast.Load) \
+                         and sub.id in self.assigned_locals and sub.id not in st.env:
+                        self.fail(st, z3.BoolVal(True), 'UnboundLocalError')
             return [('next', st, None)]
         self.ev(node.value, st)
         return [('next', st, None)]
